@@ -33,6 +33,15 @@ example : (run Skeleton.current init
     (fun s => decide (s.crashed = false ∧ s.bc.crashed = false ∧ s.bc.closed = true)) = some true := by
   decide
 
+/-- A malformed value in a function-typed argument position is only noticed when the handler INVOKES that
+    callable (the closure id is decoded per invocation): the proxy's first statement defers a function that
+    recovers every panic of the invocation — possibly on a goroutine the handler spawned, where nothing else
+    would — and reports it to the link with an unconditional `setErr` (checked against the regenerated
+    skeleton): the link ends with the decode error, the process survives, no bogus request is written. -/
+theorem C06_bad_closure_id_is_contained :
+    Skeleton.current.pxRecoverReports = true ∧ Skeleton.current.pxClosureIdPerInvocation = true := by decide
+
 end Panrpc.Ep
 
 #print axioms Panrpc.Ep.C06_link_termination_never_crashes
+#print axioms Panrpc.Ep.C06_bad_closure_id_is_contained
